@@ -562,17 +562,62 @@ pub fn run(ctx: &mut Ctx) {
             }
             let argv: Vec<&str> = args.iter().map(|x| x.as_str()).collect();
             let mut seen = BTreeSet::new();
+            // for a single fault also where the binary says it is: (code, declaration the printed file:line:column lies in)
+            let mut places: BTreeSet<Vec<(String, String)>> = BTreeSet::new();
+            let (_, ranges) = file_texts(s, a);
             for r in 0..reps {
                 let tmp = scratch.sub(&format!("c{}t{}", si, r));
                 let run = cli::run(&argv, &tmp, Duration::from_secs(30));
                 let codes: BTreeSet<String> = run.diags.iter().map(|d| d.code.clone()).collect();
                 seen.insert((run.exit == Some(0), codes));
+                if s.single_fault {
+                    let mut at: Vec<(String, String)> = vec![];
+                    for d in &run.diags {
+                        // P9999 (not implemented) accompanies other diagnostics and names no construct
+                        if d.code == "P0010" || d.code == "P0013" || d.code == "P9999" {
+                            continue;
+                        }
+                        let place = match &d.at {
+                            None => "<no location printed>".to_string(),
+                            Some((path, line, col)) => {
+                                let fi = files.iter().enumerate().position(|(k, _)| path.ends_with(&format!("f{}.st", k)));
+                                match fi {
+                                    None => format!("<unknown file {}>", path),
+                                    Some(fi) => {
+                                        // the texts are ASCII: byte offset of line:column
+                                        let mut off = 0usize;
+                                        for (ln, l) in files[fi].split_inclusive('\n').enumerate() {
+                                            if ln as u64 + 1 == *line {
+                                                off += (*col as usize).saturating_sub(1);
+                                                break;
+                                            }
+                                            off += l.len();
+                                        }
+                                        match ranges[fi].iter().find(|(st, en, _)| *st <= off && off < *en) {
+                                            Some((_, _, di)) => format!("in declaration {}", s.decls[*di].name),
+                                            None => format!("<f{}.st:{}:{} is outside every declaration>", fi, line, col),
+                                        }
+                                    }
+                                }
+                            }
+                        };
+                        at.push((d.code.clone(), place));
+                    }
+                    at.sort();
+                    places.insert(at);
+                }
             }
+            let faulty: Vec<&str> = s.decls.iter().filter(|d| d.faulty).map(|d| d.name.as_str()).collect();
+            let misplaced: Vec<_> = places.iter().flatten().filter(|(_, place)| faulty.len() == 1 && !s.name.contains("the-same") && *place != format!("in declaration {}", faulty[0])).collect();
             let outside: Vec<_> = seen.iter().filter(|x| !enumerated.contains(*x)).collect();
             let msg = if !outside.is_empty() {
                 Some(format!("the binary produced {:?}, the enumerated file orders produce {:?}", outside, enumerated))
             } else if seen.len() > 1 {
                 Some(format!("repeated runs of the same command line give {} different results: {:?}", seen.len(), seen))
+            } else if places.len() > 1 {
+                Some(format!("repeated runs of the same command line print different locations: {:?}", places))
+            } else if !misplaced.is_empty() {
+                Some(format!("the single fault is in declaration {} but the binary prints {:?}", faulty[0], misplaced))
             } else {
                 None
             };
